@@ -37,6 +37,8 @@ type mixGen struct {
 	ethContracts []*types.Address
 	poorFunded   bool
 	forceReq     bool // the next block starts with a valid request on a usable pair
+	forceTimeout int64 // ... with this timeout
+	forceRcp     bool // the next block starts with the success receipt of the scripted pair's oldest open request
 	poorNonce    uint64
 }
 
@@ -222,9 +224,25 @@ func (g *mixGen) genBlock(h uint64) []pb.Transaction {
 			if pp := g.ix.Pairs[p.from+"|"+p.to]; pp != nil {
 				req = pp.Req
 			}
-			g.ix.Submit(model.IxIBTP{From: p.from, To: p.to, Index: req + 1, Kind: model.KReq, Timeout: 0, DstUsable: p.usable, ProofOK: true})
-			txs = append(txs, g.ibtp(model.KReq, p.from, p.to, req+1, 0, nil))
+			g.ix.Submit(model.IxIBTP{From: p.from, To: p.to, Index: req + 1, Kind: model.KReq, Timeout: g.forceTimeout, DstUsable: p.usable, ProofOK: true})
+			txs = append(txs, g.ibtp(model.KReq, p.from, p.to, req+1, g.forceTimeout, nil))
 			g.note("ibtp-request")
+			break
+		}
+		g.forceTimeout = 0
+	}
+	if g.forceRcp {
+		g.forceRcp = false
+		for _, p := range g.pairs {
+			if !p.usable || g.blocked[p.from+"|"+p.to] {
+				continue
+			}
+			if pp := g.ix.Pairs[p.from+"|"+p.to]; pp != nil && pp.Rcp < pp.Req {
+				idx := pp.Rcp + 1
+				g.ix.Submit(model.IxIBTP{From: p.from, To: p.to, Index: idx, Kind: model.KRcpSuccess, DstUsable: p.usable, ProofOK: true})
+				txs = append(txs, g.ibtp(model.KRcpSuccess, p.from, p.to, idx, 0, nil))
+				g.note("ibtp-receipt")
+			}
 			break
 		}
 	}
